@@ -16,3 +16,5 @@ open GoSQLXModel
 #print axioms ExprParse.tot
 #print axioms ExprParse.pExpr_returns
 #print axioms Props.C01.expression_ladder_returns
+#print axioms ExprParse.mono
+#print axioms Props.C01.expression_answer_independent_of_fuel
